@@ -1118,4 +1118,10 @@ v("check-start-accepts-callables", [(P, "        if function and not iscoroutine
 v("P-check-start-predicate-through-helper", [(P, "class BaseTaskPool:\n", "def _is_coro_fn(function: object) -> bool:\n    return iscoroutinefunction(function)\n\n\nclass BaseTaskPool:\n"),
                                              (P, "        if function and not iscoroutinefunction(function):\n", "        if function and not _is_coro_fn(function):\n")], {"C09": "ok"})
 
+GR = "internals/group_register.py"
+v("register-discard-noop", [(GR, "        self._ids.discard(task_id)\n", "        pass\n")], {"C07": "R07.10", "C10": "R10.9"})
+v("register-len-lies", [(GR, "        return len(self._ids)\n", "        return len(self._ids) > 1\n")], {"C07": "R07.10"})
+v("register-iter-partial", [(GR, "        return iter(self._ids)\n", "        return iter(sorted(self._ids)[:1])\n")], {"C10": "R10.9"})
+v("register-pop-overridden", [(GR, "    async def acquire(self) -> bool:\n", "    def pop(self) -> int:\n        return max(self._ids)\n\n    async def acquire(self) -> bool:\n")], {"C07": "R07.10"})
+
 VARIANTS = V
